@@ -4,6 +4,7 @@ pub mod decode;
 pub mod ffi;
 pub mod filter;
 pub mod framing;
+pub mod lifecycle_net;
 pub mod server_family;
 pub mod sessions;
 pub mod tls;
@@ -74,6 +75,7 @@ pub fn replay(path: &str) -> i32 {
         Some("c16-string") | Some("c16-match") | Some("c16-server") | Some("c16-ffi") => filter::replay_c16(scn),
         Some("c19-db") | Some("c19-schedule") => ffi::replay_c19(scn),
         Some("c18-client") | Some("c18-server") | Some("c18-call-errors") | Some("c18-enums") => ffi::replay_c18(scn),
+        Some("net-history") => lifecycle_net::replay_net(scn),
         Some("client-sm") => client_sm::replay(scn),
         Some("client-stream") => framing::replay_client_stream(scn),
         k => {
